@@ -39,9 +39,8 @@ Proof. exact solve_checked_sound. Qed.
    demand exceeds capacity the model cannot return a plan.
    _partial: this theorem states feasibility only.  The rest of C13 for the raw algorithm -- a plan IS
    returned and it is of minimum cost -- is c13_ssp_optimal (minimality of every returned plan, all
-   inputs) and c13_sspF_total (termination + optimality with a sufficient round budget for updateTree),
-   further down; c13_tree_fuel_insufficient shows why "ssp returns" cannot be stated for the fixed
-   budget of Ssp.v. *)
+   inputs) and c13_ssp_returns (termination of every loop within the budgets of Ssp.v + optimality),
+   further down. *)
 Theorem c13_ssp_feasible_partial :
   forall pb x, check_pb pb = true -> ssp pb = Ok x -> pb_feasible pb (plan_f x).
 Proof. exact ssp_feasible_checked. Qed.
@@ -56,8 +55,8 @@ Proof. exact ssp_feasible_checked. Qed.
    accounting "outstanding demand <= sum of remainingCapa_".
    _partial: this theorem leaves open (i) termination of updateTree's label-correcting loop and of the two chain
    walks (fuel ids 483, 519, 532; 464 is excluded by the next theorem) and (ii) minimality.  Both are settled by
-   c13_ssp_optimal, c13_ssp_returns_or_tree_fuel_partial and c13_sspF_total below (519 and 532 never run out; 483
-   does not run out with the budget big_fuel; every returned plan is optimal). *)
+   c13_ssp_optimal, c13_ssp_returns and c13_sspF_total below (519 and 532 never run out; 483 does not run out with
+   the budget big_fuel = tree_fuel; every returned plan is optimal). *)
 Theorem c13_ssp_safe_partial :
   forall pb, check_pb pb = true -> (forall j i, 0 <= cost pb j i < INT_MAX) ->
   total_demand pb <= total_capacity pb ->
@@ -99,14 +98,21 @@ Theorem c13_ssp_optimal :
   ssp pb = Ok x -> pb_optimal pb (plan_f x).
 Proof. exact ssp_optimal_checked. Qed.
 
-(* [F for what it states / P for "a plan IS returned by ssp"] on C13's domain the model ssp returns a plan, and
-   that plan is optimal -- unless the round budget  tree_fuel n = n^3 + 2n + 1  that Ssp.v gives the `while (true)`
-   loop of updateTree (cpp:483) runs out.  Compared with c13_ssp_safe_partial: the chain walks (fuel ids 519, 532)
-   provably end within nbSinks()+1 hops (Acyc), and the outcome is optimal, not only feasible.
-   _partial: the budget n^3+2n+1 is a modelling constant of Ssp.v that is NOT proved sufficient (and may not be: the
-   loop is a label-correcting search that extracts the marked sink of smallest label while moving costs can be
-   negative; no polynomial bound on the number of rounds of such a search is known).  What IS proved is that the loop
-   terminates: see c13_sspF_total. *)
+(* [F] TOTAL CORRECTNESS of the line-by-line model ssp (the model that is extracted and tied to the C++), all
+   inputs of C13's domain, no size bound: a plan IS returned -- every loop ends within its budget, no assertion
+   fails, no empty queue is read -- and it is feasible and of minimum cost.  Ssp.v gives updateTree's `while (true)`
+   loop the budget tree_fuel n = big_fuel n = n * (2 * INT_MAX + 1) + 1 rounds, which c13_sspF_total proves
+   sufficient (the first budget of Ssp.v, n^3 + 2n + 1, is refuted by c13_tree_fuel_insufficient). *)
+Theorem c13_ssp_returns :
+  forall pb, check_pb pb = true -> (forall j i, 0 <= cost pb j i < INT_MAX) ->
+  total_demand pb <= total_capacity pb ->
+  exists x, ssp pb = Ok x /\ pb_optimal pb (plan_f x).
+Proof. exact ssp_returns. Qed.
+
+(* [F] (kept; the name dates from the time when Ssp.v had the cubic budget and this was all that could be said about
+   ssp: "_partial" with respect to "a plan IS returned").  It is now subsumed by c13_ssp_returns; on its own it says:
+   whatever budget tree_fuel is, ssp returns an optimal plan or stops in updateTree's loop (fuel id 483) and nowhere
+   else -- the chain walks (519, 532) end within nbSinks()+1 hops (Acyc) and the send loop (464) within demand+1. *)
 Theorem c13_ssp_returns_or_tree_fuel_partial :
   forall pb, check_pb pb = true -> (forall j i, 0 <= cost pb j i < INT_MAX) ->
   total_demand pb <= total_capacity pb ->
@@ -114,7 +120,7 @@ Theorem c13_ssp_returns_or_tree_fuel_partial :
 Proof. exact ssp_returns_or_tree_fuel. Qed.
 
 (* SspF.v = Ssp.v with the round budget of updateTree as a parameter tf (applied to nbSinks()); same definitions
-   otherwise; ssp is the instance tf = tree_fuel. *)
+   otherwise; ssp is the instance tf = tree_fuel (= big_fuel). *)
 Theorem c13_ssp_is_sspF : forall pb, sspF tree_fuel pb = ssp pb.
 Proof. exact ssp_is_sspF. Qed.
 
@@ -154,21 +160,22 @@ Theorem c13_sspF_budget_independent :
   forall tf1 tf2 pb x1 x2, sspF tf1 pb = Ok x1 -> sspF tf2 pb = Ok x2 -> x1 = x2.
 Proof. exact sspF_fuel_indep. Qed.
 
-(* [F] (witness) the budget n^3 + 2n + 1 of Ssp.v is NOT sufficient: a problem of C13's domain with 12 sinks and 11
-   sources on which the line-by-line model ssp stops in updateTree's loop (exactly 2049 rounds needed, 1753 allowed), while
-   with the proved budget the same definitions return the (optimal, c13_sspF_total) plan "source i -> sink 11 - i".
-   So "forall pb in the domain, exists x, ssp pb = Ok x" is FALSE for Ssp.v as it stands -- a limitation of the
-   model's constant, not of the C++: the real code returns this plan (replayed through harness/transp.cpp, cost 23628 =
-   the lemon optimum).  The family behind it (SspFuelCex.v) makes updateTree take 2^(number of full sinks) rounds. *)
+(* [F] (witness) the budget cubic_fuel n = n^3 + 2n + 1 that Ssp.v gave updateTree before is NOT sufficient: a problem of
+   C13's domain with 12 sinks and 11 sources on which the same definitions with that budget stop in updateTree's loop
+   (exactly 2049 rounds needed, 1753 allowed), while ssp (budget big_fuel) returns the (optimal, c13_ssp_returns) plan
+   "source i -> sink 11 - i".  The real code returns this plan too (harness/transp.cpp, cost 23628 = the lemon optimum; the
+   case and the smaller members of the family are in corpus/C13/cases.txt).  The family (SspFuelCex.v) makes updateTree
+   take 2^(number of full sinks) rounds, in the model and in the C++: a worst-case running-time observation, not a
+   violation of C13. *)
 Theorem c13_tree_fuel_insufficient :
   check_pb cex_pb = true /\ (forall j i, 0 <= cost cex_pb j i < INT_MAX) /\
   total_demand cex_pb <= total_capacity cex_pb /\
-  ssp cex_pb = Fail (EFuel 483) /\
-  sspF big_fuel cex_pb =
+  sspF cubic_fuel cex_pb = Fail (EFuel 483) /\
+  ssp cex_pb =
     Ok (map (fun j => map (fun i => if (j + i =? 11)%nat then 1 else 0) (seq 0 11)) (seq 0 12)) /\
-  tree_fuel (nsnk cex_pb) = 1753%positive /\
+  cubic_fuel (nsnk cex_pb) = 1753%positive /\
   sspF (fun _ => 2048%positive) cex_pb = Fail (EFuel 483) /\
-  sspF (fun _ => 2049%positive) cex_pb = sspF big_fuel cex_pb.
+  sspF (fun _ => 2049%positive) cex_pb = ssp cex_pb.
 Proof. exact tree_fuel_insufficient. Qed.
 
 (* [B] Bounded theorem: on each of the explicit finite domains below -- exactly ns sinks and nr
@@ -283,10 +290,10 @@ Example c13_fuel_nonvacuous :
 Proof. eexists. vm_compute. reflexivity. Qed.
 
 (* the problem of c13_safe_nonvacuous is in the domain of the new theorems; with the proved budget the model
-   returns the same plan (sinks 0 and 1 end saturated, so updateTree ran); with a budget of one round it stops at
-   updateTree's loop and nowhere else *)
+   returns the same plan (sinks 0 and 1 end saturated, so updateTree ran); so does the old cubic budget on this small
+   problem; with a budget of one round it stops at updateTree's loop and nowhere else *)
 Example c13_total_nonvacuous :
-  sspF big_fuel ex_pb = Ok ex_plan /\ sspF tree_fuel ex_pb = Ok ex_plan /\
+  sspF big_fuel ex_pb = Ok ex_plan /\ sspF cubic_fuel ex_pb = Ok ex_plan /\ ssp ex_pb = Ok ex_plan /\
   sspF (fun _ => 1%positive) ex_pb = Fail (EFuel 483) /\ (big_fuel (nsnk ex_pb) = 12884901886)%positive.
 Proof. vm_compute. repeat split; reflexivity. Qed.
 
@@ -309,3 +316,4 @@ Print Assumptions c13_sspF_outcomes.
 Print Assumptions c13_tree_fuel_insufficient.
 Print Assumptions c13_sspF_budget_monotone.
 Print Assumptions c13_sspF_budget_independent.
+Print Assumptions c13_ssp_returns.
